@@ -45,6 +45,12 @@ type Config struct {
 	CheckEvery bool
 	// Seed only permutes the order in which a level's frontier is processed.
 	Seed int64
+	// Confirm is the number of times a violating sequence is executed again, on fresh
+	// instances and after the search (when the workers are idle), before it is reported:
+	// a violation is reported only if one of these executions shows a violation too, so that
+	// what is reported can always be replayed. Sequences that never fail again are counted
+	// as unconfirmed observations in the evidence. 0 means 3; negative disables.
+	Confirm int
 }
 
 // Stats is what an exploration covered.
@@ -62,7 +68,19 @@ type Stats struct {
 	Checks      int            `json:"state_checks"`
 	CapHit      string         `json:"cap_hit,omitempty"`
 	ObsCount    map[string]int `json:"observable_counts,omitempty"`
+	Unconfirmed []string       `json:"unconfirmed_observations,omitempty"`
 }
+
+// pending holds violations seen during the search until they are confirmed.
+type pendingV struct {
+	path []string
+	v    *vk.Violation
+}
+
+var (
+	pendMu sync.Mutex
+	pend   = map[*vk.Run]map[string][]pendingV{} // run -> exploration name -> observations
+)
 
 type node struct {
 	path []string
@@ -80,6 +98,15 @@ func Explore(r *vk.Run, cfg Config) *Stats {
 	var stop atomic.Bool
 	var transitions, checks atomic.Int64
 
+	if cfg.Confirm >= 0 {
+		pendMu.Lock()
+		if pend[r] == nil {
+			pend[r] = map[string][]pendingV{}
+		}
+		pend[r][cfg.Name] = nil
+		pendMu.Unlock()
+		defer confirm(r, cfg, st)
+	}
 	root, err := cfg.New()
 	if err != nil {
 		r.HarnessError("%s: New: %v", cfg.Name, err)
@@ -154,10 +181,66 @@ func report(r *vk.Run, name string, path []string, err error) {
 		c := *v
 		c.Trace = append([]string{}, path...)
 		c.Scenario = name
-		r.Report(&c)
+		pendMu.Lock()
+		defer pendMu.Unlock()
+		m := pend[r]
+		if _, ok := m[name]; !ok {
+			r.Report(&c) // not inside an exploration with confirmation
+			return
+		}
+		// at most three sequences per fingerprint are kept for confirmation
+		n := 0
+		for _, p := range m[name] {
+			if p.v.Fingerprint == c.Fingerprint {
+				n++
+			}
+		}
+		if n < 3 {
+			m[name] = append(m[name], pendingV{c.Trace, &c})
+		}
 		return
 	}
 	r.HarnessError("%s: path %v: %v", name, path, err)
+}
+
+// confirm executes the pending sequences again and reports those that fail again.
+func confirm(r *vk.Run, cfg Config, st *Stats) {
+	pendMu.Lock()
+	list := pend[r][cfg.Name]
+	delete(pend[r], cfg.Name)
+	if len(pend[r]) == 0 {
+		delete(pend, r)
+	}
+	pendMu.Unlock()
+	times := cfg.Confirm
+	if times == 0 {
+		times = 3
+	}
+	done := map[string]bool{}
+	for _, p := range list {
+		if done[p.v.Fingerprint] {
+			continue
+		}
+		var again *vk.Violation
+		for i := 0; i < times && again == nil; i++ {
+			vk.Beat()
+			if err := Replay(cfg, p.path); err != nil {
+				if !errors.As(err, &again) {
+					r.HarnessError("%s: confirming %v: %v", cfg.Name, p.path, err)
+					break
+				}
+			}
+		}
+		if again != nil {
+			c := *again
+			c.Trace, c.Scenario = p.path, cfg.Name
+			r.Report(&c)
+			done[c.Fingerprint] = true
+			done[p.v.Fingerprint] = true
+			continue
+		}
+		st.Unconfirmed = append(st.Unconfirmed, fmt.Sprintf("%s after %v (not seen again in %d further executions): %s", p.v.Fingerprint, p.path, times, p.v.Detail))
+	}
 }
 
 // replayFailed handles a failure while re-establishing an already visited state. If the
@@ -169,9 +252,7 @@ func replayFailed(r *vk.Run, cfg Config, path []string, err error, stop *atomic.
 	if errors.As(err, &v) {
 		c := *v
 		c.Detail = "on a repeated execution of an already explored sequence: " + c.Detail
-		c.Trace = append([]string{}, path...)
-		c.Scenario = cfg.Name
-		r.Report(&c)
+		report(r, cfg.Name, path, &c)
 		return
 	}
 	r.HarnessError("%s: %v", cfg.Name, err)
@@ -337,6 +418,11 @@ func Merge(r *vk.Run, st *Stats) {
 	r.Add("traces_validated_against_impl", st.Transitions)
 	r.Add("state_checks", st.Checks)
 	r.Add("distinct_observables", st.Observables)
+	if len(st.Unconfirmed) > 0 {
+		r.Add("unconfirmed_observations", len(st.Unconfirmed))
+		r.Assume("an observation that did not occur again when its sequence was executed " +
+			"three more times on an idle process is listed under unconfirmed_observations and not reported")
+	}
 	ex, ok := r.Get("exhaustive").(bool)
 	if !ok {
 		ex = true
